@@ -41,7 +41,7 @@ def run(ctx, impl_only=False):
         vals += [np.array([1, 2, 3]), {'a': np.array([[1.5, 2.5], [3.5, 4.5]])}]
     except Exception:
         pass
-    rp = FAM.rich_pairs(ctx, 120 if ctx.thorough() else 30)
+    rp = FAM.rich_pairs(ctx, 120 if ctx.thorough() else 30) + FAM.hostile_pairs(ctx, 160 if ctx.thorough() else 40)
     vals += [p[0] for p in rp[:len(rp) // 2]]
     for (v, w) in rp:
         for cfg in [ctx.rng.choice(CFGS) for _ in range(2)]:
